@@ -319,6 +319,7 @@ func checkC01(w *World) {
 	w.floor(P, "R01.10", 5)
 
 	w.checkRootHandling(P, f, r, ef)
+	w.checkContextConstruction(P, f, r)
 	// node tests and selectors never modify the node-set they were given (it is shared with other contexts)
 	w.include(P, "C03", "R03.6")
 }
